@@ -45,7 +45,7 @@ def _after(k, name, outcome, net, client):
     return None
 
 
-def h_interrupt(nr1: int, nr2: int, fat: int, which: int, op2: int) -> int:
+def h_interrupt(nr1: int, nr2: int, fat: int, which: int, op2: int, after: bool) -> int:
     """
     pre: 0 <= nr1 <= 2 and 0 <= nr2 <= 2
     pre: 0 <= fat <= MAXF
@@ -55,7 +55,7 @@ def h_interrupt(nr1: int, nr2: int, fat: int, which: int, op2: int) -> int:
     """
     exc = EXCS[concretize(which, 0, 2)]
     calls = [(OP1, ops.NR[concretize(nr1, 0, 2)]), (FOLLOW[concretize(op2, 0, len(FOLLOW) - 1)], ops.NR[concretize(nr2, 0, 2)])]
-    plan = FaultPlan(at=fat, kind=F_TIMEOUT, exc=exc)
+    plan = FaultPlan(at=fat, kind=F_TIMEOUT, exc=exc, after=bool(after))
     r = ops.run_history(STACK, calls, plan, 0, nservers=NSERV, after_call=_after, expect_base_exc=EXCS,
                         check_leftover=False)  # C10 speaks about what later calls read, not about queued bytes as such
     if r[0] == "viol":
@@ -83,7 +83,8 @@ def shards(tier):
 
 BOUNDS = {
     "quick": "2 calls: first = one of 6 operations on Client / PooledClient(max 1, max 2) / HashClient(pooled) (24 shards); "
-             "the interruption strikes inside any connect/sendall/recv of the history (symbolic index) and is one of "
+             "the interruption strikes inside any connect/sendall/recv of the history (symbolic index), before or after the "
+             "socket call took effect (symbolic), and is one of "
              "KeyboardInterrupt, SystemExit, a BaseException subclass (symbolic); noreply of both calls and the follow-up "
              "operation {get, set} symbolic",
     "thorough": "15 first operations x 6 stacks, follow-up among 6 operations",
